@@ -211,6 +211,9 @@ class Engine(object):
             c = self.ctx.fresh(base, t.sort)
             cache[t.s] = c
         st.assume(Eq(c, t))
+        snoc = self.ctx.__dict__.setdefault('snoc', {})
+        if t.s in snoc:
+            snoc[c.s] = snoc[t.s]        # the name stands for prefix ++ [x] too
         return c
 
     def compact_value(self, v, st, base):
@@ -981,15 +984,27 @@ class Engine(object):
             except Undecided:
                 sa = None
             if sa is not None and ea == eb:
+                new = Concat(sa, sb)
+                if not self.pure and ea[0] in ('int', 'str', 'bool'):
+                    # remembered: the pieces of this concatenation (units for the items of a literal list)
+                    def _pieces(x, sx):
+                        ox = st.heap.get(x.loc) if isinstance(x, VRef) else None
+                        if isinstance(ox, HPyList) and len(ox.items) <= 4:
+                            return [('unit', it.t) for it in ox.items]
+                        return [('seq', sx)]
+                    self.ctx.__dict__.setdefault('cat', {})[new.s] = _pieces(a, sa) + _pieces(b, sb)
                 if self.pure:
-                    return [(VSeq(Concat(sa, sb), ea), st)]
-                return [(st.alloc(HList(Concat(sa, sb), ea)), st)]
+                    return [(VSeq(new, ea), st)]
+                return [(st.alloc(HList(new, ea)), st)]
             if isinstance(a, VRef) and isinstance(b, VRef):
                 oa, ob = st.heap[a.loc], st.heap[b.loc]
                 if isinstance(oa, HPyList) and isinstance(ob, HPyList):
                     return [(st.alloc(HPyList(oa.items + ob.items)), st)]
             if isinstance(a, VTuple) and isinstance(b, VTuple):
                 return [(VTuple(a.items + b.items), st)]
+        if isinstance(op, (ast.Add, ast.Sub, ast.Mult)) and ((isinstance(a, VInt) and isinstance(b, VNone))
+                                                             or (isinstance(a, VNone) and isinstance(b, VInt))):
+            return self._safe_result(FALSE, NONE, TypeError, st, node)       # int + None
         if isinstance(a, VBool) and isinstance(b, VBool):
             if isinstance(op, ast.BitAnd):
                 return [(VBool(And(a.t, b.t)), st)]
@@ -1142,7 +1157,21 @@ class Engine(object):
                 lo = next(it) if sl.lower is not None else None
                 hi = next(it) if sl.upper is not None else None
                 step = next(it) if sl.step is not None else None
-                out.append((self.do_slice(base, lo, hi, step, s, node), s))
+                # an optional bound (None or an int, decided symbolically): one case each
+                cases = [(lo, hi, s)]
+                for which in (0, 1):
+                    nxt = []
+                    for lo_, hi_, s_ in cases:
+                        b = (lo_, hi_)[which]
+                        if isinstance(b, VOptSym):
+                            for flag, s2 in self.fork_on(s_, b.isnone):
+                                nb = NONE if flag else b.val
+                                nxt.append(((nb, hi_, s2) if which == 0 else (lo_, nb, s2)))
+                        else:
+                            nxt.append((lo_, hi_, s_))
+                    cases = nxt
+                for lo_, hi_, s_ in cases:
+                    out.append((self.do_slice(base, lo_, hi_, step, s_, node), s_))
             return out
         for vals, s in self.ev_list([node.value, sl], st):
             if isinstance(vals, Raised):
@@ -1479,6 +1508,8 @@ class Engine(object):
                 return self.instance_attr(v, o, name, st, node)
             return [(VBound(v, name), st)]
         from . import flagdict as _fd2
+        if isinstance(v, VStr) and not hasattr(str, name):
+            return self._safe_result(FALSE, NONE, AttributeError, st, node)
         if isinstance(v, VBool) and not hasattr(bool, name):
             # a real AttributeError: reachable only if the path is (an obligation with goal false under the path condition)
             return self._safe_result(FALSE, NONE, AttributeError, st, node)
